@@ -804,23 +804,23 @@ func (t *Tree) Compile(file string, args []string, out io.Writer) (err error) {
 				ordered := &node{Type: TypeAlternate}
 				maxVal := 0
 				for i, element := range n.Iterator2() {
-					if properties[i].intersects {
-						ordered.PushBack(element.Copy())
-					} else {
-						class := &node{Type: TypeUnorderedAlternate}
+					class := &node{Type: TypeUnorderedAlternate}
+					if !properties[i].intersects {
 						for d := range unicode.MaxRune + 1 {
 							/* surrogates cannot occur in the rune buffer and all print as U+FFFD */
 							if properties[i].s.Has(d) && utf8.ValidRune(d) {
 								class.PushBack(&node{Type: TypeCharacter, string: string(d)})
 							}
 						}
-
+					}
+					if properties[i].intersects || class.Front() == nil {
+						/* no character can start this alternative (an inverted range, only
+						   surrogates): there is no case label for it, it stays in the ordered part */
+						ordered.PushBack(element.Copy())
+					} else {
 						sequence := &node{Type: TypeSequence}
 						predicate := &node{Type: TypePeekFor}
 						length := properties[i].s.Len()
-						if length == 0 {
-							class.PushBack(&node{Type: TypeNil, string: "<nil>"})
-						}
 						predicate.PushBack(class)
 						sequence.PushBack(predicate)
 						sequence.PushBack(element.Copy())
